@@ -61,7 +61,8 @@ class C21(Prop):
     trusted = ['harness/aloop.py VLoop (virtual clock); random.randrange and asyncio.sleep are patched for the duration of one run',
                'harness/loader.py inert stubs for botocore, requests, urllib3, aiodocker, google (never instances of anything)',
                'the harness computes the model\'s feature vector of an exception from the real object with isinstance/attribute reads']
-    assumptions = ['scripted failures of the retried function are instances of Exception (CancelledError / KeyboardInterrupt propagate '
+    assumptions = ['exception chains are finite trees (a cyclic __cause__ chain makes the unchanged classifiers recurse until '
+                   'RecursionError; outside the model)', 'scripted failures of the retried function are instances of Exception (CancelledError / KeyboardInterrupt propagate '
                    'unconditionally and are outside the model)', 'HAIL_DONT_RETRY_500 is unset', 'errno numbers are those of Linux', 'ClientPayloadError carries its message in args[0]',
                    'exceptions are not instances of aiodocker / urllib3 / requests / botocore classes']
 
@@ -281,6 +282,14 @@ class C21(Prop):
             e['ctx'] = self._random_exc(rng, depth + 1)
         return e
 
+    @staticmethod
+    def _wrap(core, depth):
+        """`core` under `depth` layers of `raise Wrapper(...) from inner`"""
+        sp = core
+        for d in range(depth):
+            sp = {'c': ('runtime', 'key', 'value')[d % 3], 'cause': sp}
+        return sp
+
     def _category(self, sp):
         e = self.build(sp)
         return (self.U.is_limited_retries_error(e), self.U.is_rate_limit_error(e), self.U.is_transient_error(e))
@@ -292,6 +301,8 @@ class C21(Prop):
             cand = list(self._leaves_cache)
             r2 = _random.Random(12345)
             cand += [self._random_exc(r2) for _ in range(400)]
+            cand += [self._wrap(core, d) for d in (3, 4, 5, 8) for core in ({'c': 'os', 'errno': errno.ETIMEDOUT}, {'c': 'transient'},
+                                                                            {'c': 'reset', 'errno': None}, {'c': 'value'})]
             for sp in cand:
                 if sp['c'] == 'cancelled':
                     continue     # not an Exception: the loop's `except Exception` never sees it (outside the property and the model)
@@ -339,10 +350,20 @@ class C21(Prop):
             yield {'k': 'classify', 'exc': {'c': 'value', 'ctx': sp}}
             yield {'k': 'classify', 'exc': {'c': 'httpxCRE', 'status': 404, 'body': 'none', 'cause': sp}}
             yield {'k': 'classify', 'exc': {'c': 'connector', 'os': {'c': 'os', 'errno': 1, 'cause': sp}}}
+        # deep `raise … from` chains: a transient / limited / rate-limit / permanent error under 0..8 (thorough: also 50) wrapping layers,
+        # classified and driven through the real retry loop
+        cores = [{'c': 'os', 'errno': errno.ETIMEDOUT}, {'c': 'transient'}, {'c': 'reset', 'errno': None}, {'c': 'aioCRE', 'status': 429},
+                 {'c': 'httpxCRE', 'status': 400, 'body': 'ro'}, {'c': 'value'}]
+        for depth in list(range(0, 9)) + ([50] if tier == 'thorough' else []):
+            for core in cores:
+                sp = self._wrap(core, depth)
+                yield {'k': 'classify', 'exc': sp}
+                yield {'k': 'run', 'fn': ('rte', 'dbg', 'delayed')[depth % 3], 'script': [['F', sp, 0], ['F', sp, 1], ['K', depth]]}
         for i in range(n):
             r = i % 10
             if r < 3:
-                yield {'k': 'classify', 'exc': self._random_exc(rng)}
+                yield {'k': 'classify', 'exc': self._random_exc(rng) if rng.random() < 0.8 else
+                       self._wrap(self._random_exc(rng), rng.randint(3, 8))}
             elif r < 9:
                 yield self._random_run(rng)
             else:
